@@ -645,6 +645,16 @@ def Mon.step (m : Mon) (w : World) (l : Label) (w' : World) : Mon × List Vio :=
          else []
        | none => [])
     | _ => []
+  -- ... and it is bounded: after cfg.maxPoll passes the await gives up (the guard of pollYield demands it)
+  let spinV : List Vio := match l with
+    | .pollYield i =>
+      if (w.inst i).yields >= w.cfg.maxPoll then
+        [{ prop := "C04", clause := "pollsBeyondLimit", sigs := [],
+           detail := s!"instance {i}: the polling loop of its await goes on after {w.cfg.maxPoll} passes: the await never gives up" },
+         { prop := "C03", clause := "handlerPollsForEver", sigs := [],
+           detail := s!"instance {i} polls for ever inside an await: its handler never returns, so its event never completes and awaiting it from ordinary code never returns" }]
+      else []
+    | _ => []
   let scanning : Option IId := match l with
     | .awaitBegin i _ => some i
     | .peEnd (.inst i) _ _ => some i
@@ -695,7 +705,7 @@ def Mon.step (m : Mon) (w : World) (l : Label) (w' : World) : Mon × List Vio :=
   let badYield := match l with
     | .pollYield i => if yieldV.isEmpty then m.badYield else m.badYield ++ [i]
     | _ => m.badYield
-  ({ m with snaps := snaps ++ fresh, scanning := scanning, badYield := badYield }, vs ++ changed ++ scanV ++ yieldV ++ zombieV ++ orphanV)
+  ({ m with snaps := snaps ++ fresh, scanning := scanning, badYield := badYield }, vs ++ changed ++ scanV ++ yieldV ++ spinV ++ zombieV ++ orphanV)
 
 /-- is the model quiescent: nothing queued on a live bus, nothing in hand, no open activation, no live instance -/
 def isRest (w : World) : Bool :=
